@@ -3,6 +3,7 @@ import RV.C20.TextProps
 import RV.C20.ValuesProps
 import RV.C20.ConnProps
 import RV.C20.ResultProps
+import RV.C20.EndToEnd
 open RV.C20
 #print axioms remote_mirrors
 #print axioms deferred_visibility
@@ -26,3 +27,5 @@ open RV.C20
 #print axioms result_decoding_exact
 #print axioms answer_comes_back
 #print axioms context_argument_reaches_endpoint
+#print axioms commit_reaches_endpoint_as_operations
+#print axioms pattern_read_reaches_endpoint
